@@ -113,6 +113,19 @@ PROPS = {
                  "public key, truncated, future iat with a foreign key)"],
         assumptions=["the connection kind is what RemoteAddr().Network() reports"],
     ),
+    "C14": dict(
+        lean_props="Receptor.Props.C14",
+        engines=[dict(engine="status", pkg="pkg/workceptor", test="TestVerifStatus", n_quick=40, n_thorough=400)],
+        corr_ops={"status": ["run"]},
+        facts=["st_lock", "st_lock_name", "st_unlock", "st_save", "st_load", "st_update", "st_basic", "st_basic_cb", "st_stdout", "st_bwu", "st_io"],
+        trusted=["cmd/go/internal/lockedfile (flock) gives an exclusive lock across goroutines and processes and releases it on Close: "
+                 "modelled as the `owner` field; exercised for real by goroutines and re-executed processes, not proved",
+                 "a write(2) of the whole record followed by close is complete before the lock is released (no crash inside the run: "
+                 "crashes are property C04)",
+                 "json.Marshal / Unmarshal round-trip the record fields used"],
+        assumptions=["the interleavings the operating system produces are sampled (goroutines + processes, with a parked lock holder "
+                     "forcing contention); the theorems cover every interleaving of the model's micro-steps"],
+    ),
     "C19": dict(
         lean_props="Receptor.Props.C19",
         engines=[dict(engine="redact", pkg="pkg/workceptor", test="TestVerifRedact", n_quick=250, n_thorough=2500)],
